@@ -66,6 +66,7 @@ def correspond(ctx, corr):
         corr.violate("table:unknown-class", n, "a row in the standard's tables", "none",
                      "a class the transcribed tables do not know")
     lines, wants = [], []      # (line, expected answer, description)
+    built = []                 # (object, request line, class name, args)
 
     def ask(line, want, desc):
         lines.append(line); wants.append((want, desc))
@@ -104,11 +105,11 @@ def correspond(ctx, corr):
         corr.nontrivial(("class", name))
         corr.nontrivial(("family", row_fam))
         # ---- frames ----
-        def fr(build, args):
+        def fr(build, args, line=None):
+            # objects are only BUILT here; their frames are read after every object of every class exists
+            # (a command's frame must not depend on commands built later)
             try:
-                cmd = build()
-                ask("spec frame %s %s" % (name, " ".join(args)), "ok %d %d" % (len(cmd.frame), cmd.frame.as_integer),
-                    ("frame", name, args))
+                built.append((build(), line or "spec frame %s %s" % (name, " ".join(args)), name, args))
             except Exception as e:  # noqa
                 corr.violate("frame:" + name, args, "constructible", type(e).__name__)
         if fam == "std":
@@ -156,6 +157,37 @@ def correspond(ctx, corr):
                 for _ in range(200):
                     a, b = rng.randrange(256), rng.randrange(256)
                     fr(lambda: c(a, b), [str(a), str(b)])
+        elif fam == "event" and c.__name__ not in ("UnknownEvent", "AmbiguousInstanceType"):
+            # Table 3: all five schemes, field values incl. 0 and the maxima, event information of the class
+            from dali.device import occupancy, light
+            t = c._instance_type
+            if issubclass(c, occupancy.OccupancyEvent):
+                datas = [(x, x) for x in range(16)]
+            elif issubclass(c, light.LightEvent):
+                datas = [(x, x) for x in (0, 1, 511, 1023, rng.randrange(1024))]
+            else:
+                datas = [(None, c._event_info)]
+            def f(v): return "-" if v is None else str(v)
+            for dv, info in datas:
+                for sa, inum, ig, dg in [(0, None, None, None), (63, None, None, None), (rng.randrange(64), None, None, None),
+                                         (0, 0, None, None), (5, 0, None, None), (63, 31, None, None),
+                                         (rng.randrange(64), rng.randrange(32), None, None),
+                                         (None, None, None, 0), (None, None, None, 31), (None, None, 0, None),
+                                         (None, None, 31, None), (None, 0, None, None), (None, 31, None, None),
+                                         (None, rng.randrange(32), None, None)]:
+                    kw = {}
+                    if sa is not None: kw["short_address"] = sa
+                    if inum is not None: kw["instance_number"] = inum
+                    if ig is not None: kw["instance_group"] = ig
+                    if dg is not None: kw["device_group"] = dg
+                    if dv is not None: kw["data"] = dv
+                    fr(lambda: c(**kw), [f(sa), f(inum), f(ig), f(dg), str(info)],
+                       line="spec evframe %d %s %s %s %s %d" % (t, f(sa), f(inum), f(ig), f(dg), info))
+    order = list(range(len(built)))
+    rng.shuffle(order)
+    for k in order:
+        cmd, line, name, args = built[k]
+        ask(line, "ok %d %d" % (len(cmd.frame), cmd.frame.as_integer), ("frame", name, args))
     ans = cc.run_model("m_cmd", lines)
     for l, a, (want, desc) in zip(lines, ans, wants):
         if a != want:
@@ -174,7 +206,13 @@ def correspond(ctx, corr):
     for k in idx:
         _, bits, data = ans[k].split()
         name = wants[k][1][1]
-        back = command.from_frame(ForwardFrame(int(bits), int(data)), devicetype=bydt[name])
+        mp = None
+        lp = lines[k].split()
+        if lp[1] == "evframe" and lp[3] != "-" and lp[4] != "-":
+            # device/instance scheme: the instance type comes from a map naming it
+            from dali.device.helpers import DeviceInstanceTypeMapper
+            mp = DeviceInstanceTypeMapper({(int(lp[3]), int(lp[4])): int(lp[2])})
+        back = command.from_frame(ForwardFrame(int(bits), int(data)), devicetype=bydt[name], dev_inst_map=mp)
         if cc.clsname(back) != name:
             corr.violate("table:decode:" + name, lines[k], name, cc.clsname(back),
                          "the standard's frame does not decode to the command of that name")
